@@ -6,7 +6,7 @@
    A line is accepted iff the observation satisfies the declarative definitions of GlobDecl.
 
      t = "list"     one pattern list validated against a set of names by tryMatchPatterns:
-                    which names matched (matchPattern), the match count, the reported patterns
+                    which names matched (matchPattern), the reported patterns
      t = "combo"    run / skip / known-failing / known-flaky lists and a set of names: the names the
                     filter accepts, the marking of outcomes, and the outcome of connectconformance.Run
                     (kind "unmatched" + list + reported | "ambiguous" + names | "started" + counts)
@@ -20,8 +20,8 @@ VARIABLE l
 AcceptList(r) ==
   LET P == Range(r.pats)
       N == Range(r.names) IN
-  /\ Range(r.matched) = MarkedSet(N, P)
-  /\ r.cnt = Cardinality(MarkedSet(N, P))
+  /\ Range(r.matched) = MarkedSet(N, P)       \* fresh tree per name, patterns inserted in reverse order
+  /\ Range(r.matched2) = MarkedSet(N, P)      \* the tree used by tryMatchPatterns, asked again afterwards
   /\ ReportOK(P, N, Range(r.rep))
 
 ListOf(r, what) == CASE what = "run" -> Range(r.run) [] what = "skip" -> Range(r.skip)
@@ -36,8 +36,8 @@ AcceptRun(r, N) ==
     [] o.kind = "unmatched" -> /\ o.what \in {"run", "skip", "failing", "flaky"}
                                /\ Range(o.rep) # {}
                                /\ ReportOK(ListOf(r, o.what), N, Range(o.rep))
-    [] o.kind = "ambiguous" -> /\ Range(o.amb) = Ambiguous(N, F, K)
-                               /\ Range(o.amb) # {}
+    [] o.kind = "ambiguous" -> /\ Range(o.amb) \subseteq Ambiguous(N, F, K)    \* rejected because of names
+                               /\ Range(o.amb) # {}                            \* that really are ambiguous
     [] o.kind = "started"   -> /\ \A w \in {"run", "skip", "failing", "flaky"} : TrulyUnmatched(ListOf(r, w), N) = {}
                                /\ Ambiguous(N, F, K) = {}
                                /\ o.total = Cardinality(N)
